@@ -57,15 +57,55 @@ func GenCase(r *core.Rng, id int) *conv.Case {
 			}
 		}
 	}
+	variant := id % 6
+	var sfx *gen.Def
+	if variant == 4 {
+		// names that collide the way generate/names.go documents
+		sfx = gen.SuffixNames(r, s)
+	}
 	oo := gen.DefaultOpOpts()
 	oo.MaxOps = 2
 	d := gen.RandomDoc(r, s, oo)
-	gen.DecorateSafe(r, s, d, []float64{0, 0.2, 0.3}[id%3])
+	var cfg *gen.CfgOpts
+	if variant == 3 {
+		// every documented option anywhere, type names chosen to collide with generated names
+		var pool []string
+		for _, f := range d.Frags {
+			pool = append(pool, f.Name)
+		}
+		for _, o := range d.Ops {
+			pool = append(pool, o.Name+"Response")
+			for _, sel := range o.Sel {
+				if sel.Kind == "field" && sel.Type != nil {
+					a := sel.Key()
+					pool = append(pool, o.Name+strings.ToUpper(a[:1])+a[1:]+sel.Type.Base())
+				}
+			}
+		}
+		pool = append(pool, "Shared", "Shared")
+		gen.AdversarialNames = pool
+		gen.Decorate(r, s, d, 0.3, 0.03)
+		gen.AdversarialNames = nil
+		cfg = gen.RandomCfg(r, s)
+	} else {
+		gen.DecorateSafe(r, s, d, []float64{0, 0.2, 0.3}[id%3])
+		cfg = gen.RandomCfgSafe(r, s)
+	}
 	defs := d.Defs()
 	if id%4 == 1 {
 		defs = append(defs, gen.CaseFoldDefs(r, s)...)
 	}
-	cfg := gen.RandomCfgSafe(r, s)
+	if sfx != nil {
+		defs = append(defs, sfx)
+	}
+	if variant == 5 {
+		defs = append(defs, gen.TwoSpreadsOp(r, s, "X")...)
+	}
+	if variant == 3 && id%2 == 1 {
+		if tw := gen.NestedTwinOp(r, s, "TwinType"); tw != nil {
+			defs = append(defs, tw)
+		}
+	}
 	cfg.ClientGetter = ""
 	if cfg.Optional == "generic" {
 		cfg.Optional = "pointer"
@@ -213,6 +253,8 @@ type Result struct {
 	ReErr     string          `json:"reerr"`
 	RoundTrip bool            `json:"roundtrip"`
 	Round2Err string          `json:"round2err"`
+	UCD       map[string]int  `json:"ucd"`
+	UCM       map[string]int  `json:"ucm"`
 	Calls     int             `json:"calls"`
 	OpName    string          `json:"opname"`
 	Query     string          `json:"query"`
